@@ -7,8 +7,8 @@ import PsdVerif.Lemmas.Walker3
 namespace PsdVerif.Walker
 open PsdVerif PsdVerif.Codec PsdVerif.Psd
 
-theorem walkLayerAndMask_step {v pad follow : Nat} (hv : v = 1 ∨ v = 2) (hp : pad = 1 ∨ pad = 2 ∨ pad = 4)
-    {x : LayerAndMask} (hwf : x.WF v pad follow) (hsh1 : optInfoShaped v x.layerInfo)
+theorem walkLayerAndMask_step {v pad : Nat} (hv : v = 1 ∨ v = 2) (hp : pad = 1 ∨ pad = 2 ∨ pad = 4)
+    {x : LayerAndMask} (hwf : x.WF v pad) (hsh1 : optInfoShaped v x.layerInfo)
     (hsh2 : optBlocksAgree v x.taggedBlocks) {d : B} {p : Nat} {rest : B}
     (hat : At d p (x.encT v pad ++ rest)) :
     posOf (walkLayerAndMask v d p) = some (p + (x.encT v pad).length) ∧ At d (p + (x.encT v pad).length) rest := by
@@ -44,7 +44,7 @@ theorem walkLayerAndMask_step {v pad follow : Nat} (hv : v = 1 ∨ v = 2) (hp : 
     omega
   | some li =>
     simp only at hrest
-    obtain ⟨hli, hg, hts, hgt, _⟩ := hrest
+    obtain ⟨hli, hg, hts, hgt⟩ := hrest
     simp only [optInfoShaped] at hsh1
     cases ts with
     | none => simp at hts
